@@ -100,9 +100,13 @@ def REPLAY(check, violation):
     if check == "chunks_ident":
         return chunks_ident_adapter.run({"data": [0] * inp["n_features"], "identifier_column": [0] * inp["n_ident"],
                                          "chunk_size": inp["chunk_size"]})
-    return {"violated": None, "note": "no replay for %s" % check}
+    from harness import _c10_tables
+    return _c10_tables.REPLAY(check, violation)
 
 
 if __name__ == "__main__":
     a = args()
-    emit([check_chunking(a.tier)], ["run-time evaluation of the contract text on the real functions"])
+    from harness import _c10_tables
+    emit([check_chunking(a.tier), _c10_tables.check_read_percolator(a.tier, a.seed),
+          _c10_tables.check_rejects(a.tier, a.seed)],
+         ["run-time evaluation of the contract text on the real functions"] + list(getattr(_c10_tables, "ASSUMPTIONS", [])))
